@@ -606,7 +606,7 @@ pub const DEF: PropertyDef = PropertyDef {
            name. Oracle: every token keeps position, original position, range flag, name (or none), source name minus the first matching \
            normalised prefix ('~': unchanged or cut at a '/' boundary, one common prefix for all), attached content = first non-absent \
            content of that source name in token order (none when dropped), Hermes scope unchanged; lists hold nothing unreferenced, no \
-           duplicates; file and debug id kept. Non-trivial = an unreferenced or duplicate source, sources not in first-use order, and a \
+           duplicates; file and debug id kept. lookup_token at every token position (+1 column) lands on corresponding tokens before and after; the ~ shorthand is expected exactly when every source is an absolute /-path and there is no root; produced_then_rewritten: the rewritten map is itself the result of rewrite / adjust_mappings / round trip; documented defaults of RewriteOptions. Non-trivial = an unreferenced or duplicate source, sources not in first-use order, and a \
            prefix that strips something",
     assumptions: &[
         "the exact common prefix chosen for '~' is the crate's heuristic and is not re-derived",
